@@ -42,13 +42,14 @@ func spansCoq(ss []span4) string {
 }
 
 type frontObs struct {
-	FirstTokAtOrigin bool
-	HasFile    bool
-	Locs       []cmpb.Loc
-	ErrPos     []cmpb.Pos
-	FromParser bool
-	Panic      string
-	ErrText    string
+	FirstTokAtOrigin       bool
+	FirstTokStartsAtOrigin bool
+	HasFile                bool
+	Locs                   []cmpb.Loc
+	ErrPos                 []cmpb.Pos
+	FromParser             bool
+	Panic                  string
+	ErrText                string
 }
 
 var frontPool chan *cmpb.FrontEnd
@@ -98,6 +99,7 @@ func observeFrontNow(src string) (o frontObs) {
 		pr := bcl.ParseFile(src, true)
 		o.FromParser = pr.ErrKind != ""
 		o.FirstTokAtOrigin = firstTokenEndsAtOrigin(src)
+		o.FirstTokStartsAtOrigin = firstTokenStartsAtOrigin(src)
 		return o
 	}
 	o.HasFile = out.HasFile
@@ -109,6 +111,11 @@ func observeFrontNow(src string) (o frontObs) {
 func firstTokenEndsAtOrigin(src string) bool {
 	toks, _, _, _ := bcl.Lex(src, true)
 	return len(toks) > 0 && toks[0].End.Line == 0 && toks[0].End.Column == 0
+}
+
+func firstTokenStartsAtOrigin(src string) bool {
+	toks, _, _, _ := bcl.Lex(src, true)
+	return len(toks) > 0 && toks[0].Start.Line == 0 && toks[0].Start.Column == 0
 }
 
 func locSpans(ls []cmpb.Loc) []span4 {
@@ -198,6 +205,21 @@ func errSpans(ps []cmpb.Pos) (out []span4, allPositioned bool) {
 func walkerInputs() []string {
 	hdr := "package foo.v1\n\n"
 	bodies := []string{
+		// protovalidate rules of the walker model (CmpbWalkFile.vrules), each violated once
+		"object Foo {\n  entity.part = \"KEYS\"\n}\n",
+		"object Foo {\n  entity.entity = \"thing\"\n}\n",
+		"object Foo {\n  entity.entity = \"Thing_2\"\n  entity.part = \"STATE\"\n}\n",
+		"object Foo {\n  field k key:custom\n}\n",
+		"object Foo {\n  field k key:custom {\n    format.custom.pattern = \"^a$\"\n  }\n}\n",
+		"object Foo {\n  field n integer:UNSPECIFIED\n}\n",
+		"service Foo {\n  basePath = \"/foo\"\n  method Bar {\n    httpPath = \"/bar\"\n    request {\n    }\n  }\n}\n",
+		"service Foo {\n  basePath = \"/foo\"\n  method Bar {\n    httpMethod = \"GET\"\n    httpPath = \"/bar\"\n  }\n}\n",
+		"topic Foo upsert {\n  entityName = \"foo\"\n}\n",
+		"topic Foo event {\n}\n",
+		"topic Foo publish {\n  message lower {\n    field x string\n  }\n}\n",
+		"entity Foo {\n  key fooId key:id62\n}\n",
+		"object Foo {\n  field a array {\n  }\n}\n",
+		"object Foo {\n  field a map {\n    itemSchema.string.format = \"x\"\n    keySchema string\n  }\n}\n",
 		"object {\n}\n",
 		"object Foo Bar {\n}\n",
 		"object ! Foo {\n}\n",
@@ -434,6 +456,12 @@ func runFront(cfg *vh.Config, res *vh.Result, caseNo *int, texts []string, how [
 				// errpos.AddFilename gives an error without a position the zero Position (file:1:1): that is not
 				// a position of the error. (A lexer diagnostic on the first character legitimately is 1:1.)
 				for _, p := range o.ErrPos {
+					// a protovalidate violation on a missing member of the FIRST element of a file that starts with that
+					// element (`entity Foo {` at 1:1 without status) is reported on a child location with the parent's
+					// start (0:0) and no end: genuinely the zero Position (the walker stream compares it exactly in Coq)
+					if strings.HasPrefix(p.Msg, "elements.0.") && o.FirstTokStartsAtOrigin && !strings.HasPrefix(strings.TrimLeft(src, " \t"), "package") {
+						continue
+					}
 					if p.HasPos && p.StartLine == 0 && p.StartCol == 0 && p.EndLine == 0 && p.EndCol == 0 {
 						res.Fail(vh.Failure{Case: *caseNo, Stream: "front",
 							Sig:    "C07 error position: only the default position 1:1 (" + errClass(p.Msg) + ")",
